@@ -105,7 +105,7 @@ def r_C12eval(root):
     SAMPLES = [("a", None), ("~a", None), ("a.b.c", None), ("a.~b", None), ("'x y'~a.b", None), ("''~a", None), ("parent(T).a", None), ("..a", None), ("...", None), (".", None),
                ("a,b", None), ("a.b,~c", None), ("(a)", None), ("(a,b).c", None), ("a.(b).c", None), ("(a)*", None), ("(a.b)*.c", None), ("(..)*.a", None),
                ("n.((s).(s))*.l", None), ("((a),(b))*", None), ("x.((a).parent(T))*.y", None), ("parent(N).(..).l", None), ("~t.(..).v", None), ("a.(...)", None),
-               ("^a", "(..)*.a"), ("^a,^b", "(..)*.a,(..)*.b"), ("a,b,a", None), ("^a,(..)*.a", "(..)*.a,(..)*.a"), ("(a,a)*.b", None), ("+m:a.b", None), ("+p:a", None), ("+mp:a", None), ("+pm:~a.b", None), ("+mm:a", None), ("+pp:a.b", None), ("+mpm:a", None), ("(a)*.(b)*", None), ("a*", "(a)*"), ("a.b*.c", "a.(b)*.c"), ("parent(T)*", "(parent(T))*")]
+               ("^a", "(..)*.a"), ("^a,^b", "(..)*.a,(..)*.b"), ("a,b,a", None), ("parent(OBJECT).x", None), ("a.parent(OBJECT).b", None), ("....a", None), ("a.(....)", None), ("^a,(..)*.a", "(..)*.a,(..)*.a"), ("(a,a)*.b", None), ("+m:a.b", None), ("+p:a", None), ("+mp:a", None), ("+pm:~a.b", None), ("+mm:a", None), ("+pp:a.b", None), ("+mpm:a", None), ("(a)*.(b)*", None), ("a*", "(a)*"), ("a.b*.c", "a.(b)*.c"), ("parent(T)*", "(parent(T))*")]
     cases = [(canon or written, parse_spec(written)) for written, canon in SAMPLES]
     FLAGS = {"": (False, False), "m": (True, False), "p": (False, True), "mp": (True, True), "pm": (True, True), "mm": (True, False), "pp": (False, True), "mpm": (True, True)}
     for want, spec in cases:
